@@ -85,3 +85,25 @@ def features(m):
     if len(set(m.headers)) > 1:
         f.add('types2')
     return f
+
+
+# long documents: far beyond the depth bounds of the exhaustive spaces (defects that need many rows / measures / two-digit stage numbers)
+LONG_UNIT = ['d', 'd', 'S0', 'd', 'c', 'J0', 'b', 'i', 'd', 'z', 'b']
+
+
+def long_docs(seed, reps=(6, 11)):
+    out = []
+    for h in (['**kern'], ['**kern', '**text'], ['**text', '**kern', '**kern'], ['**kern', '**dynam', '**kern', '**harm']):
+        for r in reps:
+            out.append((h, ['k', 'b'] + LONG_UNIT * r, seed))
+    return out
+
+
+def long_kern_docs(seed, reps=(5, 9)):
+    """kern-only long documents with uniform signature rows (C07 / C08 / C19)"""
+    unit = ['d', 'd', 'b', 'S0', 'd', 'J0', 'd', 'b', 'K', 'd', 'b', 'T', 'k', 'd']
+    out = []
+    for h in (['**kern'], ['**kern', '**kern']):
+        for r in reps:
+            out.append((h, ['k', 'b'] + unit * r + ['b'], seed))
+    return out
